@@ -175,6 +175,17 @@ func checkC01(c *Ctx) {
 			cfg.Hints = true
 			add(ref, "hints", cfg, OrderPlan{Mode: "canon"}, nil)
 		}
+		// the other legal ways a caller hands over the main document, fault-free: an io.Reader
+		// delivering small chunks whose last read also returns io.EOF, one delivering everything at
+		// once, a string; the whole text must still be drawn
+		for _, in := range []struct {
+			label, input string
+			chunk        uint64
+		}{{"reader-eofdata", "reader", 3 + 4*uint64(len(sc.Name))}, {"reader-chunks", "reader", 1 + 4*uint64(len(sc.Name))}, {"reader-whole", "reader", 0}, {"string", "string", 0}} {
+			cfg := ref.Cfg
+			cfg.Input, cfg.Chunk = in.input, in.chunk
+			add(ref, in.label, cfg, OrderPlan{Mode: "canon"}, nil)
+		}
 		// restart patterns without faults (every subset)
 		if K := sc.Expect.Probes; K > 0 && ref.Cfg.Engine == "pango" {
 			for _, s := range subsets(K)[1:] {
